@@ -171,9 +171,18 @@ fn debug_container(dbg: &str) -> Vec<i64> {
     dbg[i..j].split(',').filter_map(|t| t.trim().parse().ok()).collect()
 }
 fn buffer_state(b: &PushBuffer<i32>) -> Value {
+    // the abstract state through the public API (iteration oldest first, indexed access in the buffer's own order);
+    // the cursors and cells of the current ring representation only if the Debug output still shows them
     let dbg = format!("{:?}", b);
-    json!({"cap": b.capacity(), "start": debug_field(&dbg, "start"), "end": debug_field(&dbg, "end"),
-           "len": debug_field(&dbg, "len"), "cells": debug_container(&dbg)})
+    let (s, e, l) = (debug_field(&dbg, "start"), debug_field(&dbg, "end"), debug_field(&dbg, "len"));
+    let cells = debug_container(&dbg);
+    let ring = if s >= 0 && e >= 0 && l >= 0 && dbg.contains("container: [") && cells.len() == b.capacity() {
+        json!({"t": "ring", "cap": b.capacity(), "start": s, "end": e, "len": l, "cells": cells})
+    } else {
+        json!({"t": "opaque"})
+    };
+    json!({"cap": b.capacity(), "size": b.size(), "live": b.iter().copied().collect::<Vec<i32>>(),
+           "by_get": (0..b.size()).map(|i| b.get(i).copied()).collect::<Vec<_>>(), "ring": ring})
 }
 fn buffer_op(b: &mut PushBuffer<i32>, m: &str, a: &[Value]) -> Value {
     match m {
